@@ -240,7 +240,7 @@ def main():
         known_hit, _merge_counts(m["foreign"] for m in merged)))
     if harness:
         for h in harness[:5]:
-            print("HARNESS-ERROR %s" % h)
+            print("HARNESS-ERROR %s" % " | ".join(h.strip().splitlines()[-7:]))
         sys.exit(2)
     sys.exit(exit_code)
 
